@@ -261,12 +261,12 @@ func (t *TimespanType) Parameters() []px.Value {
 		if t.min == math.MinInt64 {
 			return px.EmptyValues
 		}
-		return []px.Value{stringValue(t.min.String())}
+		return []px.Value{stringValue(DefaultTimespanFormats[0].format(Timespan(t.min)))}
 	}
 	if t.min == math.MinInt64 {
-		return []px.Value{WrapDefault(), stringValue(t.max.String())}
+		return []px.Value{WrapDefault(), stringValue(DefaultTimespanFormats[0].format(Timespan(t.max)))}
 	}
-	return []px.Value{stringValue(t.min.String()), stringValue(t.max.String())}
+	return []px.Value{stringValue(DefaultTimespanFormats[0].format(Timespan(t.min))), stringValue(DefaultTimespanFormats[0].format(Timespan(t.max)))}
 }
 
 func (t *TimespanType) ReflectType(c px.Context) (reflect.Type, bool) {
